@@ -9,6 +9,7 @@ every insertion form.  Oracle: html.escape(text, quote=True).
 
 import html
 import itertools
+import os
 import re
 
 from ..core import HarnessFault
@@ -23,10 +24,13 @@ MANIFEST = {
     'text': 'Every code point (BMP in quick, all 0x110000 in thorough) and '
             'every string up to length 4/5 over & < > " \' a e-acute emoji '
             'blank newline, plus every special character at every position of multi-line / long / entity-bearing carriers, as str and as bytes in the template encoding, is inserted '
-            'through 24 forms (incl. a second insertion after a clean / tainted one) (entity, html_quote in three syntaxes, '
+            'through 33 forms (incl. a second insertion after a clean / tainted one, and insertions inside block bodies and nested blocks) (entity, html_quote in three syntaxes, '
             'expression, full path with size/null/missing/etc, '
             'fmt=html-quote, plain) on the real code; each result must equal '
             'html.escape(value, quote=True) (plain forms: the value).  '
+            'Latin-1 bytes are also inserted into file-based templates and '
+            'into template objects without an encoding attribute (both mean '
+            'the old default Latin-1).  '
             'html_quote with another option is decided relationally: with '
             'fmt=F the result equals escape(render of fmt=F alone), with a '
             'modifier M it equals M applied to the escaped text (8 formats, '
@@ -81,6 +85,26 @@ FORMS = [
      'html_quote></dtml-if>', True),
     ('after-tainted', 'HTML', '&dtml-t;|&dtml-x;', True),
     ('in-loop', 'HTML', '<dtml-in two>&dtml-c;|&dtml-x;,</dtml-in>', True),
+    # insertions inside block bodies (sections are parsed on their own) and
+    # inside nested blocks, fast path and full path
+    ('if-full', 'HTML', '<dtml-if c><dtml-var x html_quote size=99></dtml-if>',
+     True),
+    ('else-missing', 'HTML', '<dtml-if n>no<dtml-else><dtml-var x html_quote '
+     'missing="M"></dtml-if>', True),
+    ('if-fmt', 'HTML', '<dtml-if c><dtml-var x fmt=html-quote></dtml-if>',
+     True),
+    ('in-full', 'HTML', '<dtml-in two><dtml-var x html_quote size=99>,'
+     '</dtml-in>', True),
+    ('nested-ent', 'HTML', '<dtml-if c><dtml-unless n>&dtml-x;</dtml-unless>'
+     '</dtml-if>', True),
+    ('nested-hq', 'HTML', '<dtml-let y=c><dtml-if y><dtml-var x html_quote>'
+     '</dtml-if></dtml-let>', True),
+    ('try-full', 'HTML', '<dtml-try><dtml-var x html_quote size=99>'
+     '<dtml-except>E</dtml-try>', True),
+    ('with-fmt', 'HTML', '<dtml-with "_.namespace(y=1)"><dtml-var x '
+     'fmt=html-quote size=99></dtml-with>', True),
+    ('epfs-if-full', 'String', '%(if c)[%(x html_quote size=99)s%(if c)]',
+     True),
     ('plain', 'HTML', '<dtml-var x>', False),
     ('plain-epfs', 'String', '%(x)s', False),
     ('plain-expr', 'HTML', '<dtml-var "x">', False),
@@ -88,24 +112,71 @@ FORMS = [
 ]
 FORM_BY_ID = {f[0]: f for f in FORMS}
 
+EXPECT = {'text-around': '[%s|%s]', 'after-clean-ent': 'word|%s',
+          'after-clean-hq': 'word|%s', 'after-clean-mixed': 'word|%s',
+          'after-tainted': '&lt;t&gt;|%s', 'in-loop': 'word|%s,word|%s,',
+          'in-full': '%s,%s,'}
+
+
+def expected(form, value):
+    _, _cls, src, quoting = FORM_BY_ID[form][:4]
+    if 'null=' in src and not value:
+        return 'N'       # null= replaces an empty value (C15)
+    if not quoting:
+        return value
+    esc = html.escape(value, True)
+    f = EXPECT.get(form, '%s')
+    return f % ((esc,) * f.count('%s'))
+
+
 CHUNK = 2048
 CASE_CPU_SECONDS = 60.0
 CASE_CPU_SECONDS_QUICK = 50.0
 _tcache = {}
 
 
-def template(form, encoding=None, pre=False):
-    key = (form, encoding, pre)
+_tmpdir = []
+
+
+def _source_file(form, src):
+    """a file holding the source, for the file-based template classes"""
+    if not _tmpdir:
+        import atexit
+        import shutil
+        import tempfile
+        d = tempfile.mkdtemp(prefix='dtmc-c03.')
+        atexit.register(shutil.rmtree, d, True)
+        _tmpdir.append(d)
+    path = os.path.join(_tmpdir[0], form + '.dtml')
+    with open(path, 'w') as f:
+        f.write(src)
+    return path
+
+
+def template(form, encoding=None, pre=False, variant='new'):
+    """variant 'new': created with (or defaulting) an encoding; 'file': a
+    file-based template, which has no encoding of its own and means the old
+    default Latin-1; 'legacy': an object created before templates had an
+    encoding (the attribute is absent), Latin-1 as well"""
+    key = (form, encoding, pre, variant)
     t = _tcache.get(key)
     if t is None:
         import DocumentTemplate
         _, cls, src, _q = FORM_BY_ID[form]
-        cls = getattr(DocumentTemplate, cls)
-        t = cls(src, encoding=encoding) if encoding else cls(src)
+        if variant == 'file':
+            from DocumentTemplate.DT_String import File
+            cls = File if cls == 'String' else DocumentTemplate.HTMLFile
+            t = cls(_source_file(form, src))
+        else:
+            cls = getattr(DocumentTemplate, cls)
+            t = cls(src, encoding=encoding) if encoding else cls(src)
+            if variant == 'legacy':
+                del t.__dict__['encoding']
         if pre:
             # this compiled template has inserted a tainted value before
             from AccessControl.tainted import TaintedString
-            t(x=TaintedString('<pre&>'), c='word', two=[1, 2], t=tainted())
+            t(x=TaintedString('<pre&>'), c='word', two=[1, 2], t=tainted(),
+              n=0)
         _tcache[key] = t
     return t
 
@@ -242,7 +313,7 @@ def nontrivial_value(s):
     return any(c in '&<>"\'' or ord(c) > 127 for c in s)
 
 
-def judge(res, case, form, value, got, expected, enc=None):
+def judge(res, case, form, value, got, expected, enc=None, variant='new'):
     if got == expected:
         return
     if isinstance(got, BaseException):
@@ -260,13 +331,15 @@ def judge(res, case, form, value, got, expected, enc=None):
             why = 'decoding'
         else:
             why = 'text'
-        sig = 'escape:%s:%s%s' % (why, form, (':' + enc) if enc else '')
+        sig = 'escape:%s:%s%s%s' % (why, form, (':' + enc) if enc else '',
+                                    '' if variant == 'new' else '/' + variant)
         detail = {'got': got, 'expected': expected}
     base = form.split('@')[0]
     detail.update({'value': value, 'form': form, 'encoding': enc,
                    'source': FORM_BY_ID[base][2]})
     res.violate('escape' if FORM_BY_ID[base][3] else 'plain', sig, detail,
-                {'kind': 'one', 'form': form, 'value': value, 'enc': enc})
+                {'kind': 'one', 'form': form, 'value': value, 'enc': enc,
+                 'variant': variant})
 
 
 _tainted = []
@@ -279,10 +352,10 @@ def tainted():
     return _tainted[0]
 
 
-def render(form, value, enc=None, pre=False):
-    t = template(form, enc, pre)
+def render(form, value, enc=None, pre=False, variant='new'):
+    t = template(form, None if variant != 'new' else enc, pre, variant)
     try:
-        return t(x=value, c='word', two=[1, 2], t=tainted())
+        return t(x=value, c='word', two=[1, 2], t=tainted(), n=0)
     except Exception as e:       # CaseTimeout is a BaseException
         return e
 
@@ -299,18 +372,11 @@ def run(case):
         value, enc, form = case['value'], case.get('enc'), case['form']
         pre = form.endswith('@after-tainted-render')
         form = form.split('@')[0]
-        quoting = FORM_BY_ID[form][3]
-        esc = html.escape(value, True)
-        exp = {'text-around': '[%s|%s]' % (esc, esc),
-               'after-clean-ent': 'word|' + esc,
-               'after-clean-hq': 'word|' + esc,
-               'after-clean-mixed': 'word|' + esc,
-               'after-tainted': '&lt;t&gt;|' + esc,
-               'in-loop': ('word|' + esc + ',') * 2}.get(
-                   form, esc if quoting else value)
+        exp = expected(form, value)
+        variant = case.get('variant', 'new')
         v = value.encode(enc) if enc else value
-        judge(res, case, case['form'], value, render(form, v, enc, pre), exp,
-              enc)
+        judge(res, case, case['form'], value,
+              render(form, v, enc, pre, variant), exp, enc, variant)
         res.nontrivial = True
         return res
     nt = 0
@@ -333,20 +399,15 @@ def run(case):
                 continue
             got = render(form, raw, enc)
             n += 1
-            if form == 'text-around':
-                exp = '[%s|%s]' % (esc, esc)
-            elif form in ('after-clean-ent', 'after-clean-hq',
-                          'after-clean-mixed'):
-                exp = 'word|' + esc
-            elif form == 'after-tainted':
-                exp = '&lt;t&gt;|' + esc
-            elif form == 'in-loop':
-                exp = ('word|' + esc + ',') * 2
-            else:
-                exp = esc if quoting else value
-            if 'null=' in _src and not value:
-                exp = 'N'       # null= replaces an empty value (C15)
+            exp = expected(form, value)
             judge(res, case, form, value, got, exp, enc)
+            if enc == 'latin-1' and got == exp:
+                # templates without an encoding of their own
+                for variant in ('file', 'legacy'):
+                    n += 1
+                    judge(res, case, form, value,
+                          render(form, raw, enc, False, variant), exp, enc,
+                          variant)
             if quoting and case['kind'] in ('str', 'carrier'):
                 # the same on a template object that has rendered a
                 # tainted value before
